@@ -16,6 +16,10 @@ pub fn deflate(data: &[u8], level: u8, max_size: Option<usize>) -> PngResult<Vec
 }
 
 pub fn inflate(data: &[u8], out_size: usize) -> PngResult<Vec<u8>> {
+    #[cfg(feature = "verif")]
+    if let Some(tap) = crate::verif::tap() {
+        tap.inflate(data, out_size);
+    }
     let mut decompressor = Decompressor::new();
     let mut dest = vec![0; out_size];
     let len = decompressor
